@@ -106,8 +106,11 @@ def graph_replay(ctx: Ctx, rows: list[dict], nslots: int, draws: int, stage: str
     tasks = []
     for n in sorted({r["n"] for r in rows}):
         rn = [r for r in rows if r["n"] == n]
-        for _ in range(draws):
-            tasks.append({"nslots": nslots, "n": n, "params": M.draw_params(rng, n, small=True), "rows": rn})
+        for j in range(draws):
+            prm = M.draw_params(rng, n, small=True)
+            if j == 0:  # one coarse world per n: truncation must really discard something, with no cap in the way
+                prm.update(precision=float(10 ** rng.uniform(-2.5, -1)), cap=64, decay=float(rng.choice([0.7, 0.3])), chi=max(prm["chi"], 3))
+            tasks.append({"nslots": nslots, "n": n, "params": prm, "rows": rn})
     tasks.sort(key=lambda t: -len(t["rows"]))
     accs = pmap(M.replay_graph_task, tasks)
     acc = M.merge(accs)
@@ -195,7 +198,7 @@ def run(ctx: Ctx) -> None:
     futs = start_side_tlc(ctx, ctx.pick(48, 600))
     rows, res = model_check(ctx, 2, 4, depth, f"mc_2names_d{depth}")
     mutants_refuted(ctx, futs)
-    acc = graph_replay(ctx, rows, 2, ctx.pick(1, 3), "graph")
+    acc = graph_replay(ctx, rows, 2, ctx.pick(2, 4), "graph")
     report(ctx, acc, PROP, "graph")
     ctx.log(f"graph replay: {acc['transitions']} real transitions, {acc['states']} witnesses, violations so far {ctx.n_violations}")
     if res["violated"] and not ctx.n_violations and not ctx.known_seen and not ctx.drift:
